@@ -210,7 +210,8 @@ pub fn check_case(rep: &mut Report, rig: &Rig, cfg: &ClientCfg, row: &Row, form:
             if !emits.is_empty() {
                 let mut props = vec!["C01", "C03", "C20"];
                 if matches!(val, Val::Dur(_) | Val::VDur(_)) && !matches!(val, Val::VDur(v) if v.is_empty()) {
-                    props = vec!["C02", "C03", "C20"];
+                    // an out-of-range duration on the wire is a wrong number (C02) in an unfaithful line (C01)
+                    props = vec!["C02", "C01", "C03", "C20"];
                 }
                 violation(rep, props, "invalid-value-sent", format!("a value that cannot be rendered as at least one in-range number was sent as {:?}", emits), case());
             }
